@@ -121,10 +121,13 @@ def case_twin_tree(ctx, which, label='case-twin pattern lists on a real tree'):
             if which == 'glob' and a == 'İ.txt':
                 continue     # literal segments are compared through str.lower() by the walk: finding C04-icase-lower-vs-regex
             for p1, p2 in ((a, b), (b, a)):
-                for icase in (True, False):
+                for icase in (True, False, 'FORCEWIN', 'FORCEWIN|FORCEUNIX'):
+                    if which != 'glob' and isinstance(icase, str):
+                        continue
                     n += 1
                     if which == 'glob':
-                        fl = (Gm.IGNORECASE if icase else 0)
+                        # (FORCEWIN is ignored by the walk on a non-Windows host, alone and together with FORCEUNIX: case stays significant)
+                        fl = {True: Gm.IGNORECASE, False: 0, 'FORCEWIN': Gm.FORCEWIN, 'FORCEWIN|FORCEUNIX': Gm.FORCEWIN | Gm.FORCEUNIX}[icase]
                         r1, r2 = Gm.glob(p1, flags=fl, root_dir=T.root), Gm.glob(p2, flags=fl, root_dir=T.root)
                         want = sorted(set(r1) | set(r2))
                         allp = sorted(Gm.glob('**', flags=fl | Gm.GLOBSTAR, root_dir=T.root))
